@@ -179,7 +179,6 @@ func (c14) Generate(r *core.Rng, run int, tier string) *core.History {
 		flags := gen.SwarmFlags(r.Sub("flags"))
 		flags.Closures, flags.GlobalReads, flags.GlobalWrites, flags.NonDet, flags.Redefine, flags.Consts = false, false, false, false, false, false
 		flags.Comments = r.Bool(.5)
-		flags.SafeCompact = true // no statement may start with a unary minus once printed (see probe)
 		flags.FloatNoAssoc = true
 		g := gen.New(r.Sub("gen"), flags)
 		bg := newBaseGen(g, sessCfgOf(h))
